@@ -155,6 +155,19 @@ impl Parts {
         if (variant / 8) % 4 == 1 {
             members.push(("zz_unknown".into(), json!("u")));
         }
+        // unknown members whose NAMES come from neighbouring serialisations (general JWS JSON,
+        // newer drafts): they must be ignored like any other unknown member
+        match (variant / 256) % 12 {
+            1 => members.push(("header".into(), json!({"kid": "k", "alg": "none"}))),
+            2 => members.push(("header".into(), json!({"disclosures": self.disclosures.iter().rev().cloned().collect::<Vec<_>>(), "kb_jwt": "a.b.c"}))),
+            3 => members.push(("header".into(), json!("str"))),
+            4 => members.push(("signatures".into(), json!([{"protected": p[0], "signature": p[2]}]))),
+            5 => members.push(("unprotected".into(), json!({"disclosures": ["WyJzIiwgImsiLCAxXQ"]}))),
+            6 => members.push(("key_binding_jwt".into(), json!("a.b.c"))),
+            7 => members.push(("_sd".into(), json!(["x"]))),
+            8 => members.push(("sd_jwt".into(), json!(self.jwt))),
+            _ => {}
+        }
         let mut m = Map::new();
         for (k, v) in members {
             m.insert(k, v);
